@@ -76,8 +76,8 @@ Theorem C10_fiat_selectznz : forall c, 0 <= c <= 1 ->
   (forall a b, limbs_ok 8 a -> limbs_ok 8 b -> fr_selectznz c a b = if c =? 0 then a else b) /\
   (forall a b, limbs_ok 12 a -> limbs_ok 12 b -> fp_selectznz c a b = if c =? 0 then a else b).
 Proof. intros c Hc. exact (conj (fun a b => fq_selectznz_spec c a b Hc) (conj (fun a b => fr_selectznz_spec c a b Hc) (fun a b => fp_selectznz_spec c a b Hc))). Qed.
-(* Multi-limb addition of the 32-bit backend (Fq and Fr; 8 limbs): the straight-line body of fq_add / fr_add as regenerated from fiat.rs —
-   8 add-with-carry, 9 subtract-with-borrow against the modulus limbs written in the source, 8 constant-time moves — returns, for ALL limb
+(* Multi-limb addition of the 32-bit backend (Fq, Fr: 8 limbs; Fp: 12 limbs): the straight-line body of fq_add / fr_add / fp_add as regenerated
+   from fiat.rs — n add-with-carry, n+1 subtract-with-borrow against the modulus limbs written in the source, n constant-time moves — returns, for ALL limb
    values in range with both operands below the modulus, limbs in range whose value is (a + b) mod m: the canonical (reduced) sum.  Since the
    Montgomery form x |-> x * 2^256 mod m is additive, this is exact field addition on the represented values.  The modulus is the one proved
    prime in Base/Certs.v: a wrong modulus limb in the source breaks this theorem. *)
@@ -87,6 +87,9 @@ Proof. exact fq_add_spec. Qed.
 Theorem C10_fiat_fr_add : forall a b, limbs_ok 8 a -> limbs_ok 8 b -> ev a < r -> ev b < r ->
   limbs_ok 8 (fr_add a b) /\ ev (fr_add a b) = (ev a + ev b) mod r.
 Proof. exact fr_add_spec. Qed.
+Theorem C10_fiat_fp_add : forall a b, limbs_ok 12 a -> limbs_ok 12 b -> ev a < p -> ev b < p ->
+  limbs_ok 12 (fp_add a b) /\ ev (fp_add a b) = (ev a + ev b) mod p.
+Proof. exact fp_add_spec. Qed.
 (* the hypotheses are satisfiable and the wrap-around case is exercised: (q - 1) + 2 = 1 *)
 Example C10_fiat_fq_add_run :
   let a := [0; 168919040; 3489660929; 1504343806; 1547153409; 1622428958; 2586617174; 313222494] in
